@@ -2207,6 +2207,22 @@ def _lexsort(keys, axis=-1):
 # the `np` proxy
 
 class _Linalg:
+    def lstsq(self, a, b, rcond=None):
+        """least squares on symbolic data is *nondeterministic*: the solution is a vector of fresh unconstrained reals
+        (results therefore hold for any regression outcome); identical arguments on one path give the identical solution"""
+        if not (_has_sym(a) or _has_sym(b)):
+            return _np.linalg.lstsq(demote(a) if isinstance(a, SymArray) else a, demote(b) if isinstance(b, SymArray) else b, rcond=rcond)
+        c = cur()
+        A_ = _objarr(a)
+        B_ = _objarr(b)
+        key = ('lstsq',) + tuple(_z(v).get_id() if is_sym(v) else repr(v) for v in list(A_.reshape(-1)) + list(B_.reshape(-1)))
+        cache = c.__dict__.setdefault('_nondet', {})
+        if key not in cache:
+            ncol = A_.shape[1]
+            cache[key] = [SymNum(c.fresh_real('lstsq')) for _ in range(ncol)]
+            c._keep.extend(_z(v) for v in list(A_.reshape(-1)) + list(B_.reshape(-1)) if is_sym(v))
+        return array(cache[key]), None, None, None
+
     def __getattr__(self, n):
         real = getattr(_np.linalg, n)
 
